@@ -90,9 +90,13 @@ class Report:
             print("KNOWN-FINDING: property=%s %s (%d cases)" % (self.prop, what, cnt))
         if self.drift:
             print("DRIFT: property=%s %d behaviours where the Impl specification and the code disagree (no contract clause false there)" % (self.prop, len(self.drift)))
+        if self.replay_only is None:
+            import shutil
+
+            shutil.rmtree(os.path.join(REPLAYS, self.prop), ignore_errors=True)
         os.makedirs(os.path.join(REPLAYS, self.prop), exist_ok=True)
         shown = 0
-        for k, v in distinct:
+        for k, v in distinct[:400]:
             path = os.path.join(REPLAYS, self.prop, k + ".json")
             with open(path, "w") as f:
                 json.dump({"property": self.prop, "clause": v["clause"], "input": v["input"], "detail": v["detail"], "signature": v["signature"], "tier": self.tier, "seed": self.seed}, f, indent=1, default=str)
